@@ -212,3 +212,105 @@ fn wincon_write_reports_progress() {
     }
     vk::vk_cover!(r.is_ok() && !all_accepted, "short console write");
 }
+
+// ---- write_all against a console that CHECKS each call as it arrives (nothing is stored at a
+// symbolic position: that is what made the recording console too expensive for the nested loop) ----
+
+/// The run the console is being fed is always the one the extractor stand-in yielded last
+/// (`extract_next` is lazy).  Per call: the console must be offered exactly the not-yet-accepted
+/// rest of that run, with the run's colours capped; a new run may only start when the previous
+/// one was accepted completely.  Outcome per call: everything, or (at most `faults_left` times)
+/// any prefix, nothing, Interrupted, Other.
+struct OnlineConsole {
+    calls: usize,
+    faults_left: u8,
+    /// number of runs yielded when the previous call arrived
+    seen_runs: usize,
+    /// bytes of the current run accepted so far
+    off: usize,
+    /// every check so far held
+    ok: bool,
+    fatal: Option<ErrorKind>,
+}
+
+impl anstyle_wincon::WinconStream for OnlineConsole {
+    fn write_colored(&mut self, fg: Option<anstyle::AnsiColor>, bg: Option<anstyle::AnsiColor>, data: &[u8]) -> std::io::Result<usize> {
+        self.calls += 1;
+        let n = unsafe { RUN_N };
+        if n == 0 || n > 2 || self.fatal.is_some() {
+            // a call without a run, or after a fatal outcome was handed to write_all
+            self.ok = false;
+            return Ok(data.len());
+        }
+        if n != self.seen_runs {
+            // a new run starts: the previous one must have been accepted completely
+            if self.seen_runs > 0 && self.off != unsafe { RUN_LEN[self.seen_runs - 1] } {
+                self.ok = false;
+            }
+            if n != self.seen_runs + 1 {
+                self.ok = false;
+            }
+            self.seen_runs = n;
+            self.off = 0;
+        }
+        let (ptr, len, style) = unsafe { (RUN_PTR[n - 1], RUN_LEN[n - 1], RUN_STYLE[n - 1]) };
+        let style = match style { Some(s) => s, None => { self.ok = false; return Ok(data.len()); } };
+        if data.as_ptr() as usize != ptr + self.off || data.len() != len - self.off || data.is_empty() {
+            self.ok = false;
+        }
+        if fg != cap(style.get_fg_color()) || bg != cap(style.get_bg_color()) {
+            self.ok = false;
+        }
+        if self.faults_left > 0 && vk::any_bool() {
+            self.faults_left -= 1;
+            let what = vk::any_u8_in(0, 2);
+            if what == 0 {
+                return Err(ErrorKind::Interrupted.into());
+            } else if what == 1 {
+                self.fatal = Some(ErrorKind::Other);
+                return Err(ErrorKind::Other.into());
+            }
+            let k = vk::any_usize_in(0, data.len());
+            if k == 0 {
+                self.fatal = Some(ErrorKind::WriteZero);
+            }
+            self.off += k;
+            return Ok(k);
+        }
+        self.off += data.len();
+        Ok(data.len())
+    }
+}
+
+fn write_all_online(faults: u8) {
+    let buf = [b'x'; 3];
+    let mut console = OnlineConsole { calls: 0, faults_left: faults, seen_runs: 0, off: 0, ok: true, fatal: None };
+    let mut state = WinconBytes::new();
+    let r = write_all(&mut console, &mut state, &buf);
+    let (nruns, total) = unsafe { (RUN_N, RUN_TOTAL) };
+    assert!(console.ok, "each run reaches the console with its colours reduced to the 16-colour palette, and the console is offered exactly the part of the current run not yet accepted: nothing twice, nothing skipped, no new run before the previous one is complete");
+    match &r {
+        Ok(()) => {
+            assert!(console.fatal.is_none() && nruns == total && console.seen_runs == nruns, "write_all succeeds only after every run was handed over");
+            if nruns > 0 {
+                assert!(console.off == unsafe { RUN_LEN[nruns - 1] }, "write_all succeeds only after the last run was accepted completely");
+            }
+        }
+        Err(e) => {
+            assert!(console.fatal == Some(e.kind()), "a console error (or a zero-length write) reaches the caller with its kind");
+        }
+    }
+    if console.fatal.is_some() {
+        assert!(r.is_err(), "a fatal console outcome is never turned into success");
+    }
+    vk::vk_cover!(r.is_ok() && nruns == 2 && console.calls >= 3, "two runs with a retry or a short write");
+    vk::vk_cover!(r.is_err(), "error path");
+}
+
+/// every extractor answer (0-2 runs, arbitrary colours, 1-2 byte texts) x every console script
+/// with at most one misbehaving call
+#[cfg_attr(kani, kani::proof, kani::unwind(5),
+    kani::stub(crate::adapter::wincon::next_bytes, crate::adapter::verif_kani_wincon_sgr::wincon_next_recorder))]
+fn wincon_write_all_online() {
+    write_all_online(1);
+}
